@@ -19,6 +19,25 @@ theorem rsv_refused_without_negotiation (r : Rd) (s s1 : Src) (cx : Ctx) (cb : O
     exact absurd ⟨hrsv, hne⟩ this
   | some pe => exact ⟨pe, nextFrame_rejects r s s1 cx cb hdr pe hh hskip hc⟩
 
+/-- The masking rule does not look at the payload: a frame with the wrong MASK bit for the side that reads
+    it is refused at its header whatever length it announces — zero included (an empty final fragment, an
+    empty ping). -/
+theorem wrong_mask_refused (r : Rd) (s s1 : Src) (cx : Ctx) (cb : Option Callback) (hdr : Header)
+    (hh : readHeaderUtil s = (.ok hdr, s1)) (hskip : r.skipCheck = false)
+    (hop : hdr.op < 16) (hst : r.state < 256)
+    (hm : ((stOf r.state).server = true ∧ hdr.masked = false) ∨ ((stOf r.state).client = true ∧ hdr.masked = true)) :
+    ∃ pe, r.nextFrame s cx cb = (some hdr, some (.proto pe), r, s1, cx) := by
+  cases hc : checkHeader hdr r.state with
+  | none =>
+    rcases hm with hm | hm
+    · exact absurd hm ((C03.check_none_iff hdr r.state hop hst).mp hc .serverGotUnmasked)
+    · exact absurd hm ((C03.check_none_iff hdr r.state hop hst).mp hc .clientGotMasked)
+  | some pe => exact ⟨pe, nextFrame_rejects r s s1 cx cb hdr pe hh hskip hc⟩
+
+/-- an unmasked EMPTY final continuation closing a fragmented message on a server: refused -/
+example :
+    (Rd.nextFrame { state := 9 } { chunks := [[0x80, 0x00]], fin := .eof } {} none).2.1 = some (.proto .maskRequired) := by rfl
+
 /-- Non-vacuity: a server-side reader (state 1: not extended) WITH the compression extension attached,
     given a masked final text frame with RSV1: refused with ErrProtocolNonZeroRsv. -/
 example :
